@@ -1325,11 +1325,14 @@ class Env:
     """Options of the environment (DESIGN.md section 3, T3)."""
 
     def __init__(self, phases=("pake", "version", "0"), dilate=False, reentrant=False,
-                 postclose_helper=False, budget=400000, name="quick", dilation_manager=False, api=None):
+                 postclose_helper=False, budget=400000, name="quick", dilation_manager=False, api=None,
+                 time_budget=900.0, budget_after_violation=40000):
         self.phases = tuple(phases)
         self.dilate = dilate
         self.dilation_manager = dilation_manager
         self.api = tuple(api) if api else ("set_code", "allocate_code", "input_code", "send", "helpers")
+        self.time_budget = time_budget
+        self.budget_after_violation = budget_after_violation
         self.reentrant = reentrant
         self.postclose_helper = postclose_helper
         self.budget = budget
@@ -1532,7 +1535,11 @@ class Explorer:
         exhausted = True
         events_used = collections.Counter()
         while q:
-            if len(seen) > self.env.budget:
+            # budgets: a state budget per environment, a wall-clock budget, and - once something was found - a much
+            # smaller one (a broken tree can blow the state space up; the violations nearest to the initial state
+            # are found first by the breadth-first order and are enough for a verdict)
+            if len(seen) > self.env.budget or (time.time() - t0) > self.env.time_budget or \
+                    (I.viol and len(seen) > self.env.budget_after_violation):
                 exhausted = False
                 break
             s = q.popleft()
@@ -1627,6 +1634,8 @@ class Explorer:
                     work.append(p_)
         closing = [k for k in r.seen if r.states[k].get(('e', 'api_closed')) == 'T']
         stuck = [k for k in closing if k not in good]
+        if not r.exhaustive:
+            stuck = []      # the graph is truncated: unexplored frontier states have no successors yet
         r.closing_states = len(closing)
         r.stuck = [(self.path(r, k), r.states[k].machines()) for k in stuck[:5]]
         r.n_stuck = len(stuck)
@@ -1640,14 +1649,15 @@ POST_CLOSING = ("srv.error", "srv.welcome-error", "api.close")
 
 
 ENVS = {
-    "quick": Env(name="quick"),
+    "quick": Env(name="quick", budget=120000, time_budget=240.0),
     "dilate": Env(dilate=True, name="dilate"),
     "reentrant": Env(reentrant=True, name="reentrant"),
     "postclose": Env(postclose_helper=True, name="postclose-helper"),
     "phases4": Env(phases=("pake", "version", "0", "1"), name="phases4"),
     "phases-dilate": Env(phases=("pake", "version", "0", "dilate-0"), name="phases-dilate"),
     "phases-unknown": Env(phases=("pake", "version", "0", "weird"), name="phases-unknown"),
-    "dilation": Env(phases=("pake", "version", "dilate-0", "dilate-1"), dilation_manager=True, api=("set_code",), name="dilation"),
+    "dilation": Env(phases=("pake", "version", "dilate-0", "dilate-1"), dilation_manager=True, api=("set_code",), name="dilation",
+                    budget=120000, time_budget=240.0),
     "dilation-full": Env(phases=("pake", "version", "dilate-0", "dilate-1"), dilation_manager=True, name="dilation-full"),
 }
 
